@@ -110,6 +110,7 @@ message Payroll {
 	"b": {
 		"other/o.proto": `syntax = "proto3";
 package other;
+import "google/protobuf/descriptor.proto";
 option java_package = "preset.pkg";
 option optimize_for = CODE_SIZE;
 // keep me
@@ -119,6 +120,14 @@ option csharp_namespace = "Preset.Ns";
 option ruby_package = "Other";
 message O {
   int64 x = 1 [jstype = JS_STRING];
+  // a field whose only option is a custom option with a nested path
+  string y = 2 [(other.meta).owner = "x"];
+}
+message Meta {
+  string owner = 1;
+}
+extend google.protobuf.FieldOptions {
+  Meta meta = 50010;
 }
 `,
 	},
